@@ -93,8 +93,10 @@ def make_hook(fn):
     return hook
 
 
-def product_rule(chk, db, rule_id, fn, dims=(1, 2, 3, 4)):
+def product_rule(chk, db, rule_id, fn, dims=None):
     """returns the number of (function, dimension) cases decided"""
+    from tsg.tier import pick
+    dims = dims or pick((1, 2, 3, 4), (1, 2, 3, 4, 5, 6))
     # the accumulator: a local std::vector<double> or a double* parameter whose elements receive a derivative symbol
     arrays = {v["did"]: v for v in fn.locals().values() if v.get("t", "").startswith("std::vector<double") and "did" in v}
     arrays.update({p_["did"]: p_ for p_ in fn.params() if p_["t"].replace(" ", "") in ("double*",)})
@@ -155,9 +157,11 @@ def product_rule(chk, db, rule_id, fn, dims=(1, 2, 3, 4)):
     return n
 
 
-def value_rule(chk, db, rule_id, fn, kind="V", dims=(1, 2, 3, 4)):
+def value_rule(chk, db, rule_id, fn, kind="V", dims=None):
     """tensor-product value: a function returning double (or a scalar local accumulated before use) equals prod_k <kind>_k,
     every factor addressed with its own dimension"""
+    from tsg.tier import pick
+    dims = dims or pick((1, 2, 3, 4), (1, 2, 3, 4, 5, 6))
     nd_field = next((q["field"] for q in fn.walk() if q.get("k") == "MemberExpr" and short(q.get("field") or "") == "num_dimensions"), None)
     returns_value = (fn.d.get("ret") or "").strip() == "double"
     n = 0
